@@ -271,7 +271,7 @@ func c06(args []string) {
 			c.Violation("shadow-counter-exceeds-max", fmt.Sprintf("shadow slot counter reached %d > max %d at %+v", sh, max, at), map[string]interface{}{"spec": j.s, "cfg": j.cfg, "event": at})
 			return
 		}
-		if acq == 0 && n > 0 {
+		if acq == 0 && n > 0 && !j.cfg.NoHooks {
 			c.Inconclusive("hook task.slots_acquired never reached")
 		}
 		// a task that executes without having taken slots
